@@ -1,7 +1,7 @@
 """Per-property registration data for MANIFEST.json (edited by hand, see gen_manifest.py)."""
 PBT = 'property-based testing (Hypothesis generated cases vs. reference model)'
 FIX_COMMITS = ['3b9b3f9', '09d4a06', '1a3a570', '9a96315', 'deecdaa', '67fef07', '931a82b', '87c55a7',
-               '0c4e4cd', 'da4ae4d', '861e788', 'ea1d2d0', '4912797', '915518f', '3c3b200', 'b0da763', '4d7258f']
+               '0c4e4cd', 'da4ae4d', '861e788', 'ea1d2d0', '4912797', '915518f', '3c3b200', 'b0da763', '4d7258f', '76c24f0']
 NOT_APPLICABLE = {}
 CHECKS = {
     'C20': dict(
